@@ -204,6 +204,11 @@ def user_addr_writers(radio, agg, p0f, lite=False):
                 got = radio.it0.concrete_bytes(cur, out.state) if not (isinstance(norm(cur), Const) and norm(cur).v is None) else None
                 want = A if p == 0 else user
                 agg.add("R08.1", f_open, "open_rx_pipe records the address for pipe 0 only", out.kind == "return" and got == want, "open_rx_pipe(%d, %r) with previous %r: stored %r" % (p, A, user, cur))
+                if not lite and out.kind == "return":
+                    # the listen setter and open_tx_pipe decide from the shadows whether pipe 0 must be opened / restored: they must be current
+                    for r in (0x02,) + ((0x0A + p,) if p < 2 else ()):
+                        ok, det = radio.shadow_matches(out.state, r)
+                        agg.add("R08.6", f_open, "shadow of %s follows the register" % regname(r), ok, "open_rx_pipe(%d, %r): %s" % (p, A, det))
             st = radio.fresh()
             st.heap[radio.ref.ident].fields[p0f] = lift(st, user)
             for out in radio.run(f_close, [p], st):
@@ -212,6 +217,9 @@ def user_addr_writers(radio, agg, p0f, lite=False):
                 got = radio.it0.concrete_bytes(cur, out.state) if not (isinstance(norm(cur), Const) and norm(cur).v is None) else None
                 want = None if p == 0 else user
                 agg.add("R08.1", f_close, "close_rx_pipe forgets the address for pipe 0 only", out.kind == "return" and got == want, "close_rx_pipe(%d) with previous %r: stored %r" % (p, user, cur))
+                if not lite and out.kind == "return":
+                    ok, det = radio.shadow_matches(out.state, 0x02)
+                    agg.add("R08.6", f_close, "shadow of EN_RXADDR follows the register (TX entry re-opens pipe 0 only if the shadow says it is closed)", ok, "close_rx_pipe(%d): %s" % (p, det))
     init_v = radio.st_init.heap[radio.ref.ident].fields.get(p0f)
     agg.add("R08.1", radio.cls.lookup("__init__")[1], "a new object has no user pipe-0 address", isinstance(norm(init_v), Const) and norm(init_v).v is None, "constructor leaves %r" % (init_v,))
     return n
